@@ -77,7 +77,7 @@ def range_class(r):
 def run_filter(sv, k, i, n, res):
     f, how = live_filter(sv)
     res.extra['filter_seam'] = how
-    rs, ts = words(RSUB, k), words(TSUB, k)
+    rs, ts = words(RSUB, 4), words(TSUB, k)      # ranges always up to 4 subtags; tags up to k (quick 3, thorough 4)
     for ri in range(i, len(rs), n):
         r = rs[ri]
         for t in ts:
@@ -305,7 +305,7 @@ def check(tier, seed):
         'rule': ('(i) every (range, tag) pair over the subtag alphabets up to k subtags on the live filter, and a sub-square plus range lists end to '
                  'end through :lang(); (ii) every language-determination document x 6 selectors against the inheritance reference; non-trivial = '
                  'the reference says "match" for the pair / selects an element'),
-        'exhaustive': not info['cap_hit'], 'max_subtags': k, 'range_subtags': list(RSUB), 'tag_subtags': list(TSUB),
+        'exhaustive': not info['cap_hit'], 'max_subtags': {'range': 4, 'tag': k}, 'range_subtags': list(RSUB), 'tag_subtags': list(TSUB),
         'filter_seam': res.extra.get('filter_seam'),
     }
     return {'result': res, 'coverage': cov, 'info': info,
